@@ -23,6 +23,23 @@ fn ambient() -> u64 {
     t.elapsed().map(|d| d.as_secs()).unwrap_or(0) + e.len() as u64 + p as u64 + addr as u64
 }
 
+// Positive control for ARENA-IMMUT: a node of an `Expr` arena edited in place.
+#[derive(Clone, Debug)]
+enum Expr {
+    Terminal { fallback: usize },
+}
+
+fn edit_in_place(arena: &mut Vec<Expr>) -> usize {
+    if let Expr::Terminal { fallback } = &mut arena[0] {
+        *fallback = 1;
+    }
+    if let Some(Expr::Terminal { fallback }) = arena.get_mut(0) {
+        *fallback += 1;
+    }
+    arena.len()
+}
+
 fn main() {
-    println!("{:?} {}", hash_order(), ambient());
+    let mut arena = vec![Expr::Terminal { fallback: 0 }];
+    println!("{:?} {} {}", hash_order(), ambient(), edit_in_place(&mut arena));
 }
